@@ -1,6 +1,7 @@
 """C16 Scalar codec primitives are total, canonical and mutually inverse."""
 from ..spec import specwire as sw
 
+WARMUP = True  # a concrete first use of the harness before each path (vf/explore.py: WarmEnv)
 PROPERTY = "C16"
 TITLE = "Scalar codec primitives"
 
